@@ -499,7 +499,8 @@ CONN_EXTRA = {
             "history_starts": ("cn_new", "e2e_run")},
     "C07": {"profiles": CONN_PROFILES + E2E_ENDING, "impl_only_prefixes": ("e2e_",), "impl_fail_tags": ("C07",),
             "history_starts": ("cn_new", "e2e_run")},
-    "C08": {"profiles": CONN_PROFILES + FUZZ},
+    "C08": {"profiles": CONN_PROFILES + FUZZ + [{"name": "server-preface", "quick": 2000, "thorough": 200000, "shards": {"quick": 1, "thorough": 8}}],
+            "impl_only_prefixes": ("hs_",), "impl_fail_tags": ("C08",), "history_starts": ("cn_new", "hs_run")},
 }
 CONN_BASE_THMS = {
     "C17": [],
